@@ -25,20 +25,45 @@ def FullMatch (pat s : Str) : Prop :=
 
 theorem C01_parse_is_full_match (s pat : Str) (today : Nat × Nat × Nat) (v : VInfo)
     (h : parseVersionInfo s pat today = .ok v) : FullMatch pat s := by
-  sorry
+  unfold parseVersionInfo at h
+  generalize hc : compileRe (normalizePattern pat pat) = oc at h
+  cases oc with
+  | none => cases h
+  | some r =>
+    simp only at h
+    generalize hm : reMatch r s = om at h
+    cases om with
+    | none => cases h
+    | some m =>
+      simp only at h
+      split at h
+      · cases h
+      · rename_i hlt
+        have hstop : m.stop ≤ s.length := by
+          unfold reMatch at hm
+          split at hm
+          · injection hm with hm
+            subst hm
+            exact Nat.sub_le _ _
+          · cases hm
+        exact ⟨r, m, hc, hm, by omega⟩
 
 /-- THE GATE: acceptance means full match and strictly greater -/
 theorem C01_gate_sound (pat old new : Str) (unique : Bool) (tags : List Str) (today : Nat × Nat × Nat)
     (h : gate pat old new unique tags today = .ok .accept) :
     FullMatch pat new ∧ pepLt old new = true := by
-  sorry
+  obtain ⟨⟨v, hv⟩, hle, -⟩ := gate_accept h
+  exact ⟨C01_parse_is_full_match new pat today v hv, pepLt_of_not_le hle⟩
 
 /-- a candidate that is not strictly greater is never accepted — including PEP 440-equal but
     textually different ones (1.2 vs 1.2.0), equal ones and tag downgrades -/
 theorem C01_not_greater_rejected (pat old new : Str) (unique : Bool) (tags : List Str)
     (today : Nat × Nat × Nat) (h : pepLe new old = true) :
     gate pat old new unique tags today ≠ .ok .accept := by
-  sorry
+  intro hacc
+  have hle := (gate_accept hacc).2.1
+  rw [h] at hle
+  cases hle
 
 /-- `bumpver test`: an announced version matches in full, is strictly greater than the version
     given, and the PEP 440 line is its canonical form -/
@@ -46,7 +71,9 @@ theorem C01_test_sound (old pat : Str) (fl : IncrFlags) (dg : Bool) (date today 
     (sv : Option Str) (new pep : Str)
     (h : cliTest old pat fl dg date today sv = .announce new pep) :
     FullMatch pat new ∧ pepLt old new = true ∧ pep = verStr (parseVersion new) := by
-  sorry
+  obtain ⟨hgate, hpep⟩ := cliTest_announce h
+  obtain ⟨hfull, hlt⟩ := C01_gate_sound pat old new false [] today hgate
+  exact ⟨hfull, hlt, hpep⟩
 
 /-- `bumpver update`: an announced version matches in full and is strictly greater than the start
     version, which is the config value or the newest matching tag per scope (C09) -/
@@ -56,17 +83,62 @@ theorem C01_update_sound (scope : TagScope) (ign : Bool) (pat cfgv : Str) (fl : 
     (h : cliUpdateVersion scope ign pat cfgv fl dg date today sv scopeTags globalTags = (.announce new pep, start)) :
     FullMatch pat new ∧ pepLt start new = true ∧
     (if ign then start = cfgv else startVersion scope pat cfgv today scopeTags = .ok start) := by
-  sorry
+  obtain ⟨hstart, hgate⟩ := cliUpdateVersion_announce h
+  obtain ⟨hfull, hlt⟩ := C01_gate_sound pat start new _ globalTags today hgate
+  refine ⟨hfull, hlt, ?_⟩
+  cases ign
+  · simpa using hstart
+  · simp only [if_true, Except.ok.injEq] at hstart
+    simp [hstart]
 
 /-- in every other case the exit code is non-zero (the outcome type has no other success) … -/
 theorem C01_otherwise_nonzero (o : CliOutcome) (h : ∀ n p, o ≠ .announce n p) :
     o = .exit1 ∨ ∃ e, o = .crash e := by
-  sorry
+  cases o with
+  | announce n p => exact absurd rfl (h n p)
+  | exit1 => exact .inl rfl
+  | crash e => exact .inr ⟨e, rfl⟩
+
+/-- when the gate rejects, `plan` stops right after listing the tags: exit code 1 and only the
+    read-only events of `get_tags` in the trace -/
+private theorem plan_gate_rejected (c : PlanCfg) (a : PlanCli) (e : PlanEnv) (hg : e.gateOk = false)
+    (r : List Ev × Nat) (h : plan c a e = r) : r.2 = 1 ∧ ∀ ev ∈ r.1, TagEv a.fetch ev := by
+  unfold plan at h
+  split at h
+  · subst h
+    simp
+  rename_i c' hc'
+  extract_lets s0 at h
+  split at h
+  rename_i s1 o1 h1
+  have e1 : EvExt (TagEv a.fetch) [] s1.evs := by
+    split at h1
+    · simp only [Prod.mk.injEq] at h1
+      rw [← h1.1]
+      exact .refl _
+    · have := getTags_ext e a.fetch c'.scopeBranch s0
+      rw [h1] at this
+      exact this
+  have hr : r = (s1.evs.reverse, 1) := by
+    split at h
+    · exact h.symm
+    · simp only [hg, Bool.not_false, if_true] at h
+      exact h.symm
+  subst hr
+  obtain ⟨T, hT, hm⟩ := e1
+  refine ⟨rfl, fun ev hev => ?_⟩
+  simp only [List.mem_reverse] at hev
+  rw [hT] at hev
+  simp only [List.append_nil] at hev
+  exact hm ev hev
 
 /-- … and no project file is changed: without an accepted version the update never reaches the
     rewrite step, runs no hook and no mutating VCS command (Model/Plan.lean) -/
 theorem C01_rejected_no_rewrite (c : PlanCfg) (a : PlanCli) (e : PlanEnv) (hg : e.gateOk = false) :
     (plan c a e).2 = 1 ∧ ∀ ev ∈ (plan c a e).1, ev ≠ .rewrite ∧ ev.mutating = false ∧ ev.isHook = false := by
-  sorry
+  obtain ⟨hcode, hall⟩ := plan_gate_rejected c a e hg _ rfl
+  refine ⟨hcode, fun ev hev => ?_⟩
+  rcases hall ev hev with rfl | rfl | rfl | ⟨-, rfl | rfl | rfl⟩ <;>
+    simp [Ev.mutating, Ev.isHook]
 
 end BV
